@@ -17,6 +17,8 @@ inductive ArmPat
   | unit
   | tuple (ps : List Pat)
   | named (ps : List (Ident × Pat))
+  | tupleRest (ps : List Pat)               -- `(p0, p1, ..)`
+  | namedRest (ps : List (Ident × Pat))     -- `{ f: p, .. }`
   deriving Repr, Inhabited
 
 /-- Matching an arm pattern of variant `k` (declared field names `names`) against field values. -/
@@ -24,6 +26,8 @@ def matchArm {V : Type} (k : Nat) (names : List Ident) (vals : List V) : ArmPat 
   | .unit => []
   | .tuple ps => matchTuple k 0 ps vals
   | .named ps => matchNamed k names vals ps
+  | .tupleRest ps => matchTuple k 0 ps vals
+  | .namedRest ps => matchNamed k names vals ps
 
 /-- Operand evaluation. In struct bodies operands are `self.i` / `other.i` (variant 0);
     in enum arms they are binders. `none` = unbound name or missing field (ill-scoped code). -/
